@@ -290,3 +290,31 @@ Definition rr_listed (exact : bool) (denom : string) (index : list (string * Z))
 Definition rr_allocate (amount supply : Z) (bal : Z -> Z) (listed : list Z) : outcome Z :=
   let total := zsum (map (fun h => Z.quot (amount * bal h) supply) listed) in
   if amount <? total then Panic "neg-coin" else Ok (amount - total).
+
+(* ------------------------------------------------------------------ gov actors and the permission index under address rotation.
+   An actor record carries its individually whitelisted permissions; the index holds (permission, address) entries.
+   Rotation a -> u saves a's record at u (OVERWRITING a record already there) and moves only the index entries of the
+   permissions in the moved record; enumerating a permission looks every indexed address up and panics if it has no record. *)
+Record astate := mkA { a_actors : list (Z * list Z); a_index : list (Z * Z) }.
+Fixpoint a_find (x : Z) (l : list (Z * list Z)) : option (list Z) :=
+  match l with [] => None | (y, ps) :: r => if x =? y then Some ps else a_find x r end.
+Definition a_drop (x : Z) (l : list (Z * list Z)) := filter (fun e => negb (fst e =? x)) l.
+Definition a_rotate (refuse : bool) (s : astate) (a u : Z) : astate :=
+  match a_find a s.(a_actors) with
+  | None => s
+  | Some perms =>
+      if refuse && (match a_find u s.(a_actors) with Some _ => true | None => false end) then s   (* rejected message *)
+      else mkA ((u, perms) :: a_drop u (a_drop a s.(a_actors)))
+               (map (fun e => if (snd e =? a) && zmem (fst e) perms then (fst e, u) else e) s.(a_index))
+  end.
+Fixpoint a_enumerate (p : Z) (actors : list (Z * list Z)) (index : list (Z * Z)) : outcome (list Z) :=
+  match index with
+  | [] => Ok []
+  | (q, x) :: r =>
+      if q =? p then
+        match a_find x actors with
+        | None => Panic "actor-missing"          (* GetNetworkActorOrFail *)
+        | Some _ => do l <- a_enumerate p actors r; Ok (x :: l)
+        end
+      else a_enumerate p actors r
+  end.
